@@ -20,8 +20,26 @@ def main():
     for k, v in extra.get("ready", {}).items():
         ready[k] = tuple(v)
     checks = []
+    import re
     for pid in sorted(ready):
         text, note = ready[pid]
+        # live theorem list (Properties*.v) and the assumptions of the last evidence file
+        names = []
+        for f in ("Properties.v", "PropertiesSM.v"):
+            pv = os.path.join(HERE, "coq", pid, f)
+            if os.path.exists(pv):
+                t = re.sub(r"\(\*.*?\*\)", "", open(pv).read(), flags=re.S)
+                names += re.findall(r"^\s*(?:Theorem|Corollary)\s+(\w+)", t, flags=re.M)
+        if names:
+            text += " || Theorems currently stated and proved in coq/%s/Properties*.v (%d; names ending in _partial / _refuted say what is not or cannot be proved): %s" % (pid, len(names), ", ".join(names))
+        ev = os.path.join(HERE, "evidence", pid + ".json")
+        if os.path.exists(ev):
+            try:
+                a = json.load(open(ev)).get("assumptions", [])
+                if a:
+                    note += " || assumptions recorded by the last run: " + "; ".join(a)[:1500]
+            except Exception:
+                pass
         checks.append({
             "property_id": pid,
             "quick_cmd": "./check %s --tier quick" % pid,
